@@ -49,6 +49,11 @@ class Tgt:
             lp = lambda x: float(-0.5 * (x - mu) @ P @ (x - mu))
             gr = lambda x: -P @ (x - mu)
             d = 2
+        elif name == "stiff2":
+            var = np.array([0.25, 4.0]) * [1.0, 0.75, 1.25][k]
+            lp = lambda x: float(-0.5 * np.sum(x ** 2 / var))
+            gr = lambda x: -x / var
+            d = 2
         elif name == "banana2":
             b = [0.5, 0.25, 0.75][k]
             lp = lambda x: float(-0.5 * (x[0] ** 2 / 4.0 + (x[1] + b * x[0] ** 2 - 1.0) ** 2))
@@ -73,6 +78,9 @@ BASES = {
     "gauss1": [([0.4], [0.9]), ([-1.1], [0.3]), ([0.2], [-1.7])],
     "gauss2c": [([0.5, -0.3], [0.8, -0.6]), ([-0.7, 0.9], [0.2, 1.1]), ([1.2, 0.4], [-0.9, -0.3])],
     "banana2": [([0.6, 0.4], [0.7, -0.5]), ([-1.0, 0.2], [0.4, 0.9]), ([0.1, 1.3], [-1.2, 0.3])],
+    # found by an offline scan of the reference model: these orbits contain sub-trees whose SECOND half stops
+    # (U-turn between its leaves) while the outer span does not (event "second-half-stop-only")
+    "stiff2": [([-0.3, 1.5], [0.5, 0.4]), ([-1.0, -2.0], [-0.4, 1.1]), ([-0.3, 0.5], [0.9, 1.1])],
 }
 
 
@@ -129,9 +137,14 @@ class ModelMismatch(Exception):
         self.what = what
 
 
-def ref_nuts(orb, k, ell, D, decide, finite_guard):
-    """Returns (final index, evaluated indices, alpha statistic of the last doubling)."""
+def ref_nuts(orb, k, ell, D, decide, finite_guard, cov=None):
+    """Returns (final index, evaluated indices, alpha statistic of the last doubling).
+    ``cov`` (dict) counts which stopping/selection events of the algorithm the replayed leaf exercised."""
     evaluated = []
+    cov = {} if cov is None else cov
+
+    def hit(name):
+        cov[name] = cov.get(name, 0) + 1
     H0 = orb.H(k)
 
     def uturn(m, p):
@@ -145,6 +158,10 @@ def ref_nuts(orb, k, ell, D, decide, finite_guard):
             Hn = orb.H(new)
             n_ = int(ell <= Hn)
             s_ = int(ell < 1000 + Hn)
+            if not n_:
+                hit("leaf-outside-slice")
+            if not s_:
+                hit("leaf-divergent")
             dH = Hn - H0
             a_ = 1.0 if dH > 0 else (float(np.exp(dH)) if np.isfinite(dH) else 0.0)
             return new, new, new, n_, s_, a_, 1
@@ -158,8 +175,17 @@ def ref_nuts(orb, k, ell, D, decide, finite_guard):
                 prime = prime2
             a_ += a2
             na_ += na2
-            s_ = s2 * uturn(m, p)
+            ut = uturn(m, p)
+            if not s2:
+                hit("subtree-second-half-stopped(depth>=%d)" % min(j, 2))
+                if ut:
+                    hit("second-half-stop-only")   # the outer span itself does not U-turn: only s2 stops the tree
+            elif not ut:
+                hit("subtree-uturn(depth>=%d)" % min(j, 2))
+            s_ = s2 * ut
             n_ += n2
+        else:
+            hit("subtree-first-half-stopped")
         return m, p, prime, n_, s_, a_, na_
 
     minus = plus = cur = k
@@ -175,8 +201,14 @@ def ref_nuts(orb, k, ell, D, decide, finite_guard):
             if (not finite_guard) or np.isfinite(orb.logd(prime)):
                 cur = prime
         n += n_
+        if not s_:
+            hit("doubling-rejected(sub-tree stopped)")
+        elif not uturn(minus, plus):
+            hit("top-level-uturn")
         s = s_ * uturn(minus, plus)
         j += 1
+        if s == 1 and j > D:
+            hit("max-depth-reached")
         alpha_stat = a_ / na_
     return cur, evaluated, alpha_stat
 
@@ -199,6 +231,14 @@ def cells(tier, seed):
             if iface == "exp":
                 for D in ((1,) if tier == "quick" else (0, 1, 2)):
                     yield {"iface": iface, "target": t, "eps": 0.6, "D": D, "base": 1, "hist": "warm", "cat": k, "tier": tier}
+        # stiff/soft Gaussian with the step near the stability limit of the stiff direction: U-turns *inside* sub-trees
+        for eps, bases in (((0.85, (0,)), (0.95, (1,))) if tier == "quick" else ((0.7, (0, 1, 2)), (0.85, (0, 1, 2)), (0.95, (0, 1, 2)))):
+            for D in ((2,) if tier == "quick" else (1, 2, 3)):
+                for b in (bases if D < 3 else bases[:1]):
+                    c = {"iface": iface, "target": "stiff2", "eps": eps, "D": D, "base": b, "hist": "fresh", "cat": k, "tier": tier}
+                    if D == 3:
+                        c["cols"] = 0
+                    yield c
 
 
 def eval_cell(cell):
@@ -371,7 +411,7 @@ def run_start(cell, tgt, orb, kk, ell, D, eps, saved, res, comp, facet, lo, hi, 
                 raise ModelMismatch("%s decision probability %.12g, reference NUTS %.12g" % (kind, p_impl, p_ref))
             return ch
         try:
-            jf, ev, astat = ref_nuts(orb, 0, ell, D, decide, finite_guard=True)
+            jf, ev, astat = ref_nuts(orb, 0, ell, D, decide, finite_guard=True, cov=res.branches)
             if pos[0] != len(pts):
                 raise ModelMismatch("implementation made %d more decisions than the reference" % (len(pts) - pos[0]))
             if jf != j:
